@@ -31,8 +31,13 @@ def mk(o):
     """the real polymath object of a wire operand"""
     cls = CLASSES[o['cls']]
     arr = vals_of(o)
+    dt = o.get('dtype', 'float')
+    if dt == 'int':
+        arr = arr.astype(np.int64)           # the generator only marks integer-valued operands
+    elif dt == 'bool':
+        arr = arr.astype(bool)               # ... and 0/1-valued ones
     if arr.ndim == 0:
-        arr = float(arr)
+        arr = arr.item()
     kw = {'drank': len(o['denom'])} if o['denom'] else {}
     return cls(arr, mk_mask(o['mask'], o['shape']), **kw)
 
